@@ -82,3 +82,25 @@ def same_image_is_same_key(kind, u, v, suffix_aware):
         return t.match(v) == "A" and len(t) == 1
     except ValueError:
         return True
+
+
+def variant_tokenization(kind, u, suffix_aware):
+    """the key a variant trie stores for u is the stem list of the variant's image of u"""
+    f = {"canonicalized": canonicalize_url, "normalized": normalize_url, "fingerprinted": fingerprint_url}[kind]
+    try:
+        img = f(u)
+        ref = lru_stems(img, suffix_aware=suffix_aware)
+    except Exception:
+        return True
+    from urllib.parse import urlsplit
+    try:
+        if not urlsplit(img if "://" in img[:12] else "http://" + img).hostname:
+            return True
+    except ValueError:
+        return True
+    if kind != "canonicalized":
+        ref = [s for s in ref if not s.startswith("s:")]
+        if isinstance(normalize_url(u, unsplit=False), str):
+            return True       # unparseable url handed back unchanged: not a url
+    t = CLASSES[kind](suffix_aware=suffix_aware)
+    return t.tokenize(u) == ref
